@@ -437,6 +437,7 @@ func runC10(r *Run) {
 	c10PendingReset(r)
 	c10ExpiredThenEnd(r)
 	c10ParkedThenEnd(r)
+	c10BusyWorkersThenEnd(r)
 	rng := r.Rand("c10")
 	maxH := r.Scale(3, 8)
 	stopped := map[string]bool{}
